@@ -34,6 +34,11 @@ def mc_stage(tier, pid='C10'):
         out['generator_model'] = {'cfg': os.path.basename(cfg2), 'states': r2.distinct, 'transitions': r2.generated, 'wall_s': round(r2.wall, 1)}
         out['states'] += r2.distinct
         out['transitions'] += r2.generated
+        if pid == 'C10':
+            # liveness: under weak fairness of the next_guess() step every level ends ("and then reports exhaustion")
+            r3 = core.tlc_must_pass(os.path.join(core.SPEC, 'MC_OmenEnum.tla'), os.path.join(core.SPEC, 'MC_OmenEnum_live.cfg'),
+                                    'OmenEnum liveness', timeout=3000)
+            out['generator_liveness'] = {'cfg': 'MC_OmenEnum_live.cfg', 'property': 'ReportsExhaustion', 'states': r3.distinct, 'wall_s': round(r3.wall, 1)}
     return out, cfg
 
 
